@@ -18,6 +18,9 @@ SAME Lean definition the theorems are about, instantiated with IEEE doubles:
 Search: the property's clauses stated directly on the real routine.
 """
 import math
+import os
+for _v in ("OMP_NUM_THREADS", "OPENBLAS_NUM_THREADS", "MKL_NUM_THREADS"):   # tiny vectors: BLAS threads only burn CPU
+    os.environ.setdefault(_v, "1")
 import numpy as np
 import core
 from props import dykstra_common as dc
@@ -37,6 +40,7 @@ THEOREMS = [
     "Dfols.C15.C15_pbox_fixes_box",
     "Dfols.Dykstra.pball_in_ball",
     "Dfols.Dykstra.ball_last",
+    "Dfols.C15.C15_near_optimal_counterexample_ieee",
 ]
 LEVEL = "proof"
 TRUSTED_EXTRA = [
@@ -121,7 +125,7 @@ def case_json(c):
 
 def case_from_json(j):
     return {"n": j["n"], "specs": [dc.spec_from_json(s) for s in j["specs"]], "x0": np.array(j["x0"], dtype=float),
-            "tol": j["tol"], "max_iter": j["max_iter"], "start": j.get("start", "?")}
+            "tol": j["tol"], "max_iter": j["max_iter"], "start": j.get("start", "?"), "xstar": j.get("xstar")}
 
 
 def run_real(dfols, c):
@@ -182,7 +186,9 @@ def correspondence(ctx):
         lines.append(dc.line_closed(c["specs"], c["x0"], r.max_iter, r.tol))
         owner.append((k, "closed"))
         stats["closed_lines"] += 1
-    replies = core.run_driver(lines, main=dc.MAIN) if lines else []
+    replies = []
+    for a in range(0, len(lines), 1500):          # chunked: oracle lines can be ~100 kB each
+        replies += core.run_driver(lines[a:a + 1500], main=dc.MAIN)
     nbad = 0
     for (k, mode), rep in zip(owner, replies):
         c, r = cases[k], recs[k]
@@ -271,20 +277,55 @@ def check_case(dfols, c, want_ref=True):
         info["fixed_point_checked"] = True
     # near-optimality against a reference run (only meaningful when stopped by rule)
     if r.stopped and want_ref:
-        xref, conv = dc.ref_dykstra(specs, c["x0"])
+        if c.get("xstar") is not None:            # crafted case: the projection is known in closed form
+            xref, conv = np.array(c["xstar"], dtype=float), True
+        else:
+            xref, conv = dc.ref_dykstra(specs, c["x0"])
         info["ref"] = conv
         if conv:
             err = float(np.linalg.norm(r.x - xref))
             info["opt_err"] = err
             if not err <= 1e-3:
-                sig = "C15:near-optimal-loose-tol" if r.tol > 1e-8 else "C15:near-optimal-tight-tol"
+                if c.get("xstar") is not None:
+                    sig = "C15:near-optimal-thin-intersection"
+                else:
+                    sig = "C15:near-optimal-loose-tol" if r.tol > 1e-8 else "C15:near-optimal-tight-tol"
                 fails.append((sig, "stopped by rule with tol=%.3e after %d sweeps but %.3e from the projection onto the intersection"
                               % (r.tol, r.sweeps, err)))
     return fails, info
 
 
+def crafted_cases():
+    """deterministic corpus: thin intersections (with interior) and a starting point ~2e-3 outside them,
+    DEFAULT tol and max_iter.  One sweep moves x by less than sqrt(tol) (the sets are nearly parallel
+    there), the routine stops by its rule, yet the projection onto the intersection is 2e-3 away.
+    The true projection is known in closed form (by symmetry it lies on the x-axis)."""
+    out = []
+    for h in (1e-8, 1e-9):                     # lens of two unit balls centred (0, +-(1-h)); half-width w
+        w = math.sqrt(1 - (1 - h) ** 2)
+        out.append({"n": 2, "specs": [("S", np.array([0.0, 1 - h]), 1.0), ("S", np.array([0.0, -(1 - h)]), 1.0)],
+                    "x0": np.array([w + 2e-3, 0.0]), "tol": None, "max_iter": None, "start": "near", "thin": True,
+                    "xstar": [w, 0.0], "name": "lens h=%g" % h})
+    eps = 1e-3                                 # wedge |y| <= eps*x, apex at the origin
+    out.append({"n": 2, "specs": [("H", np.array([-eps, 1.0]), 0.0), ("H", np.array([-eps, -1.0]), 0.0)],
+                "x0": np.array([-2e-3, 0.0]), "tol": None, "max_iter": None, "start": "near", "thin": True,
+                "xstar": [0.0, 0.0], "name": "wedge eps=1e-3"})
+    return out
+
+
 def search(ctx):
     dfols = core.import_dfols()
+    crafted = []
+    for c in crafted_cases():
+        fails, info = check_case(dfols, c)
+        ctx.seen(("c15crafted", c["name"]))
+        crafted.append({"name": c["name"], "sweeps": info["sweeps"], "stopped_by_rule": info["stopped"],
+                        "opt_err": info.get("opt_err"), "failed": [f[0] for f in fails]})
+        for sig, what in fails[:1]:
+            cj = case_json(c)
+            cj["xstar"] = c["xstar"]
+            ctx.fail(sig, "%s (default tol/max_iter): %s" % (c["name"], what), {"case": cj})
+    ctx.cov["search_crafted_thin_intersections"] = crafted
     ncase = ctx.scale(4000, 40000) * getattr(ctx, "boost", 1)
     stats = {"cases": 0, "stopped_by_rule": 0, "hit_cap": 0, "zero_sweeps": 0, "fixed_point_checked": 0,
              "last_box": 0, "ref_converged": 0, "ref_not_converged_skipped": 0, "max_opt_err_tight": 0.0,
